@@ -156,6 +156,32 @@ def rerun(names, tier, all_props=False):
     return rows
 
 
+def readme():
+    """ Regenerate seeded/README.md from the meta.json files. """
+    rows = []
+    for name in sorted(os.listdir(SEEDED)):
+        path = os.path.join(SEEDED, name, "meta.json")
+        if not os.path.exists(path):
+            continue
+        meta = json.load(open(path))
+        if not meta.get("kept"):
+            continue
+        check = meta.get("check", {})
+        line = next((l for l in check.get("lines", ()) if "facet=" in l), "")
+        rows.append("| {} | {} | {} | {} | {} |".format(
+            name, meta["property"], "yes" if check.get("detected") else "NO",
+            line.strip()[:120].replace("|", "/"),
+            str(meta.get("summary", ""))[:160].replace("|", "/").replace(
+                "\n", " ")))
+    text = open(os.path.join(SEEDED, "_head.md")).read()
+    text += "| seed | property | detected by quick check | first failing "\
+        "facet / label | change |\n|---|---|---|---|---|\n"
+    text += "\n".join(rows) + "\n\n"
+    text += open(os.path.join(SEEDED, "_tail.md")).read()
+    open(os.path.join(SEEDED, "README.md"), "w").write(text)
+    print(len(rows), "rows")
+
+
 def main():
     parser = argparse.ArgumentParser()
     sub = parser.add_subparsers(dest="cmd")
@@ -166,8 +192,11 @@ def main():
     b = sub.add_parser("run")
     b.add_argument("names", nargs="*")
     b.add_argument("--tier", default="quick")
+    sub.add_parser("readme")
     args = parser.parse_args()
-    if args.cmd == "ingest":
+    if args.cmd == "readme":
+        readme()
+    elif args.cmd == "ingest":
         ingest(args.property, args.source, args.name)
     else:
         rerun(args.names, args.tier)
